@@ -16,7 +16,7 @@ OUTSIDERS = ['/a/b/cd', '/y/z']
 CALLER = ':1.60'
 
 
-def make_class():
+def make_class(falsy=False):
     from txdbus import objects as O, interface as I
     iface = I.DBusInterface(
         'org.ex.T', I.Method('Ping', '', 's'),
@@ -39,6 +39,14 @@ def make_class():
 
         def dbus_Ping(self):
             return self.getObjectPath()
+
+    if falsy:
+        # container-like application objects that are empty at the moment
+        # (truth value False); exported objects all the same
+        class Empty(T):
+            def __len__(self):
+                return 0
+        return Empty
     return T
 
 
@@ -87,7 +95,7 @@ class TreeScenario(explore.Scenario):
     def build(self):
         w = W()
         w.cw = fakes.ClientWorld()
-        w.T = make_class()
+        w.T = make_class(self.params.get('falsy', False))
         w.exported = set()
         w.again = set()      # paths whose object was replaced by another
         w.inst = {}          # path -> the instance kept by the application
@@ -413,6 +421,9 @@ def run_churn(cycles, live, same_path):
             dbusInterfaces = [ifs['Right']]
             Title = O.DBusProperty('Title')
 
+            def __len__(self):
+                return 0        # container-like and empty
+
             def __init__(self, path):
                 O.DBusObject.__init__(self, path)
                 self.Title = 'R' + path
@@ -542,7 +553,8 @@ def run(ctx):
         'UnknownObject when unexported); each event must emit exactly one '
         'InterfacesAdded / InterfacesRemoved for that path. A second pass '
         'adds the event "export another object at an occupied path", a '
-        'third exports the same instance again after it was unexported. '
+        'third exports the same instance again after it was unexported; '
+        'one pass uses container-like objects whose truth value is False. '
         'Long-lived connection: 60..400 cycles of export / query / unexport '
         'of short-lived objects of two classes (different interfaces and '
         'properties) beneath a permanent parent, 0, 7 or 40 live at a time'
@@ -564,6 +576,11 @@ def run(ctx):
                      'paths': (1, 2, 3, 4) if ctx.quick else (0, 1, 2, 3, 4, 6)},
                     max_depth=30,
                     label='the same instances exported again after unexport')
+    explore.explore(ctx, TreeScenario,
+                    {'dedup': True, 'falsy': True,
+                     'paths': (0, 1, 2, 4) if ctx.quick else tuple(range(7))},
+                    max_depth=30,
+                    label='exported objects whose truth value is False')
     explore.explore(ctx, TreeScenario,
                     {'dedup': True, 'paths': (1, 2, 4), 'adapted': True},
                     max_depth=30,
